@@ -59,6 +59,11 @@ func init() {
 	ops["check_arg_type"] = func(r req) any {
 		return map[string]any{"err": me.VerifCheckArgType(r.ty("d"), r.ty("a"))}
 	}
+	ops["exec_type"] = func(r req) any {
+		var s me.VerifExecTypeSpec
+		json.Unmarshal(r["spec"], &s)
+		return me.VerifCalculateExecutionType(&s)
+	}
 	ops["check_args"] = func(r req) any {
 		var s me.VerifCheckArgsSpec
 		json.Unmarshal(r["spec"], &s)
